@@ -91,6 +91,17 @@ pub fn generate_and_run(seed: u64, tier: &str, cases_w: &mut dyn Write, impl_w: 
 		long.extend_from_slice(format!("---\nk{i}: [1, 2, {{a: b}}]\n").as_bytes());
 	}
 	inputs.push(long);
+	// long non-ASCII streams, shifted byte by byte, so that libyaml's 16 KiB raw buffer ends inside 2-, 3- and 4-byte
+	// characters and the next read is asked for less than the buffer's size
+	for shift in 0..4usize {
+		let mut t = "a".repeat(shift);
+		t.push_str("k: \"");
+		for _ in 0..5000 {
+			t.push_str("\u{20ac}\u{1f600}\u{e9}");
+		}
+		t.push_str("\"\n");
+		inputs.push(t.into_bytes());
+	}
 	let n_rand = if tier == "thorough" { 300 } else { 40 };
 	for _ in 0..n_rand {
 		let mut d = vec![];
